@@ -5,6 +5,8 @@ import Props.C18
 import Model.Threshold
 import Extracted.Guards
 import Extracted.Consts
+import Proofs.LagrangeCoeff
+import Proofs.Primes
 
 /-! # C06 — threshold shares reconstruct the unique group signature for any ≥ t+1 signers -/
 
@@ -78,6 +80,33 @@ theorem limb_no_overflow (l : List Nat) (hl : l.length ≤ 8) (hb : ∀ x ∈ l,
   have h3 : (255 : Nat) ^ 8 < 2 ^ 64 := by norm_num
   omega
 
+/-- **the C loop computes the Lagrange coefficient**: for every list of signer indices (each at most 255 =
+    `MAX_IND`) and every position `i`, the value returned by the limb-batched loop of
+    `Fr_lagrange_coeff_at_zero` (`Model.Threshold.coeff`: 8 indices per 64-bit limb, sign bookkeeping, one Fermat
+    inversion) is `Π_{j≠i} x_j / (x_j - x_i)` in `F_r`, with `r` the BLS12-381 group order (prime by a Pratt
+    certificate) -/
+theorem coeff_is_lagrange (xs : List Nat) (i : Nat) (hb : ∀ x ∈ xs, x ≤ 255) :
+    ((Model.Threshold.coeff Model.Bls.r xs i : Nat) : ZMod Model.Bls.r) =
+      lagrangeAtZero (Finset.range xs.length) (fun j => ((xs.getD j 0 : Nat) : ZMod Model.Bls.r)) i := by
+  rw [Proofs.LagrangeCoeff.coeff_spec xs i (by decide +kernel) (by decide +kernel) hb]
+  rfl
+
+/-- consequence: the shares `P(x_j) • h` of any polynomial of degree `< #signers`, weighted by the coefficients the
+    C loop computes, sum to `P(0) • h` - for every list of distinct signer indices at most 255 -/
+theorem c_loop_reconstructs {G : Type*} [AddCommGroup G] [Module (ZMod Model.Bls.r) G] (xs : List Nat)
+    (hb : ∀ x ∈ xs, x ≤ 255)
+    (hinj : Set.InjOn (fun j => ((xs.getD j 0 : Nat) : ZMod Model.Bls.r)) (Finset.range xs.length))
+    (Q : (ZMod Model.Bls.r)[X]) (hdeg : Q.degree < xs.length) (h : G) :
+    ∑ i ∈ Finset.range xs.length,
+      ((Model.Threshold.coeff Model.Bls.r xs i : Nat) : ZMod Model.Bls.r) •
+        (Q.eval ((xs.getD i 0 : Nat) : ZMod Model.Bls.r) • h) = Q.eval 0 • h := by
+  have := reconstruct_const (Finset.range xs.length) (fun j => ((xs.getD j 0 : Nat) : ZMod Model.Bls.r)) hinj Q
+    (by simpa using hdeg) h
+  rw [this.symm]
+  apply Finset.sum_congr rfl
+  intro i _
+  rw [coeff_is_lagrange xs i hb]
+
 /-- tie: batching constants of the C code as they are now (64 / MAX_IND_BITS = 8 indices per limb, indices ≤ 255) -/
 theorem tie_limbs :
     Extracted.Consts.crypto_ThresholdSignMaxSize = 254 ∧ Extracted.Consts.crypto_ThresholdSignMinSize = 2 ∧
@@ -112,3 +141,5 @@ end Props.C06
 #print axioms Props.C06.tie_limbs
 #print axioms Props.C06.stateful_safe
 #print axioms Props.C06.tie_guards
+#print axioms Props.C06.coeff_is_lagrange
+#print axioms Props.C06.c_loop_reconstructs
